@@ -5,9 +5,11 @@ import (
 	"errors"
 	"flag"
 	"fmt"
+	"os"
 	"time"
 
 	"github.com/samaritan-proxy/samaritan/host"
+	"github.com/samaritan-proxy/samaritan/logger"
 	pbhc "github.com/samaritan-proxy/samaritan/pb/config/hc"
 	"github.com/samaritan-proxy/samaritan/proc/verifexport"
 
@@ -16,21 +18,27 @@ import (
 
 // HealthStep is one step emitted by spec/host/HealthGen.tla.
 type HealthStep struct {
-	OK   bool `json:"ok"`
-	Rise int  `json:"rise"`
-	Fall int  `json:"fall"`
-	Flag bool `json:"flag"`
+	Op    string `json:"op"` // "result" (default) | "reconf": ResetHealthCheck with the new thresholds
+	IC    bool   `json:"ic"` // reconf: the new config also changes the interval
+	OK    bool   `json:"ok"`
+	Rise  int    `json:"rise"`
+	Fall  int    `json:"fall"`
+	Flag  bool   `json:"flag"`
+	Rise0 int    `json:"rise0"` // thresholds before this step (reconf)
+	Fall0 int    `json:"fall0"`
 }
 
 // HealthResult is the outcome of one outcome sequence driven through the real monitor.
 type HealthResult struct {
-	ID      int    `json:"id"`
-	Rise    int    `json:"rise"`
-	Fall    int    `json:"fall"`
-	Seq     string `json:"seq"`   // outcomes: 's' success, 'f' failure
-	Flags   string `json:"flags"` // real flag after each result: 'H' / 'U'
-	Conform bool   `json:"conform"`
-	Why     string `json:"why,omitempty"`
+	ID               int    `json:"id"`
+	Rise             int    `json:"rise"`
+	Fall             int    `json:"fall"`
+	Seq              string `json:"seq"` // outcomes: 's' success, 'f' failure; "[r,f]" / "[r,f,i]" a reconfiguration (i: interval changed)
+	Reconfs          int    `json:"reconfs"`
+	EarlyAfterReconf bool   `json:"earlyAfterReconf,omitempty"` // the early flip happened after a reconfiguration
+	Flags            string `json:"flags"`                      // real flag after each result: 'H' / 'U'
+	Conform          bool   `json:"conform"`
+	Why              string `json:"why,omitempty"`
 	// property predicate on the real flags
 	EarlyFlip    string `json:"earlyFlip,omitempty"`    // a flip after fewer consecutive contrary results than the threshold
 	ViewMismatch string `json:"viewMismatch,omitempty"` // Healthy() disagrees with the flag of the only member
@@ -40,17 +48,29 @@ type HealthResult struct {
 
 var errScripted = errors.New("scripted failure")
 
-// runHealth drives one outcome sequence through a real monitor over a real set with one host.
-// model (optional) is the expected flag after each result.
-func runHealth(id, rise, fall int, seq []bool, model []bool) (HealthResult, error) {
+func init() {
+	// keep the monitor's per-check log lines out of the harness output
+	if os.Getenv("VERIF_SUT_LOG") == "" {
+		logger.SetLevel("FATAL")
+	}
+}
+
+// runHealth drives one sequence of check results and run-time reconfigurations through a real
+// monitor over a real set with one host.  steps[i].Flag (if withModel) is the expected flag
+// after step i.  The predicate is judged against the thresholds of the last config that
+// ResetHealthCheck accepted (the configuration in force).
+func runHealth(id, rise, fall int, steps []HealthStep, withModel bool) (HealthResult, error) {
 	res := HealthResult{ID: id, Rise: rise, Fall: fall, Conform: true}
 	h := host.New("10.0.0.1:80")
 	set := host.NewSet(h)
 	outcome := true
 	calls := 0
-	cfg := &pbhc.HealthCheck{Interval: time.Hour, Timeout: time.Second, FallThreshold: uint32(fall), RiseThreshold: uint32(rise),
-		Checker: &pbhc.HealthCheck_TcpChecker{TcpChecker: &pbhc.TCPChecker{}}}
-	m, err := verifexport.NewMonitor(cfg, set, func(addr string, timeout time.Duration) error {
+	interval := time.Hour
+	mkcfg := func(r, f int) *pbhc.HealthCheck {
+		return &pbhc.HealthCheck{Interval: interval, Timeout: time.Second, FallThreshold: uint32(f), RiseThreshold: uint32(r),
+			Checker: &pbhc.HealthCheck_TcpChecker{TcpChecker: &pbhc.TCPChecker{}}}
+	}
+	m, err := verifexport.NewMonitor(mkcfg(rise, fall), set, func(addr string, timeout time.Duration) error {
 		calls++
 		if outcome {
 			return nil
@@ -60,9 +80,34 @@ func runHealth(id, rise, fall int, seq []bool, model []bool) (HealthResult, erro
 	if err != nil {
 		return res, err
 	}
+	// the loop consumes the "strategy updated" signal of ResetHealthCheck; with an interval of
+	// hours it never ticks, the rounds are run synchronously below
+	m.Start()
+	defer m.Stop()
 	prev := h.IsHealthy()
 	runKind, runLen := byte(0), 0
-	for i, ok := range seq {
+	for i, st := range steps {
+		if st.Op == "reconf" {
+			if st.IC {
+				interval += time.Hour
+			}
+			if err := m.ResetHealthCheck(mkcfg(st.Rise, st.Fall)); err != nil {
+				return res, err
+			}
+			rise, fall = st.Rise, st.Fall // accepted: in force from now on
+			res.Reconfs++
+			if st.IC {
+				res.Seq += fmt.Sprintf("[%d,%d,i]", rise, fall)
+			} else {
+				res.Seq += fmt.Sprintf("[%d,%d]", rise, fall)
+			}
+			if withModel && res.Conform && st.Flag != h.IsHealthy() {
+				res.Conform = false
+				res.Why = fmt.Sprintf("step %d (reconfiguration): real flag %v, model %v", i, h.IsHealthy(), st.Flag)
+			}
+			continue
+		}
+		ok := st.OK
 		outcome = ok
 		before := calls
 		verifexport.CheckOnce(m) // one synchronous round over set.All()
@@ -94,7 +139,8 @@ func runHealth(id, rise, fall int, seq []bool, model []bool) (HealthResult, erro
 			}
 			if runKind != want || runLen < thr {
 				if res.EarlyFlip == "" {
-					res.EarlyFlip = fmt.Sprintf("result %d: flag became %v after %d consecutive '%c' (threshold %d)", i, cur, runLen, runKind, thr)
+					res.EarlyFlip = fmt.Sprintf("step %d: flag became %v after %d consecutive '%c' (threshold in force %d)", i, cur, runLen, runKind, thr)
+					res.EarlyAfterReconf = res.Reconfs > 0
 				}
 			} else if runLen-thr > res.MaxLate {
 				res.MaxLate = runLen - thr
@@ -104,11 +150,11 @@ func runHealth(id, rise, fall int, seq []bool, model []bool) (HealthResult, erro
 		// the usable view follows the flag (the host is the only member)
 		hl := set.Healthy()
 		if cur != (len(hl) == 1 && hl[0] == h) && res.ViewMismatch == "" {
-			res.ViewMismatch = fmt.Sprintf("result %d: flag %v, Healthy() has %d hosts", i, cur, len(hl))
+			res.ViewMismatch = fmt.Sprintf("step %d: flag %v, Healthy() has %d hosts", i, cur, len(hl))
 		}
-		if model != nil && res.Conform && model[i] != cur {
+		if withModel && res.Conform && st.Flag != cur {
 			res.Conform = false
-			res.Why = fmt.Sprintf("result %d: real flag %v, model %v", i, cur, model[i])
+			res.Why = fmt.Sprintf("step %d: real flag %v, model %v", i, cur, st.Flag)
 		}
 	}
 	return res, nil
@@ -141,12 +187,13 @@ func cmdHealth(args []string) error {
 			if len(st) == 0 {
 				return nil
 			}
-			seq := make([]bool, len(st))
-			model := make([]bool, len(st))
-			for i, s := range st {
-				seq[i], model[i] = s.OK, s.Flag
+			// the initial thresholds: those of the first result step before any reconfiguration,
+			// or - if the path starts with a reconfiguration - any pair different from its target
+			rise, fall := st[0].Rise, st[0].Fall
+			if st[0].Op == "reconf" {
+				rise, fall = st[0].Rise0, st[0].Fall0
 			}
-			r, err := runHealth(id, st[0].Rise, st[0].Fall, seq, model)
+			r, err := runHealth(id, rise, fall, st, true)
 			if err != nil {
 				return err
 			}
@@ -161,11 +208,11 @@ func cmdHealth(args []string) error {
 		for rise := 1; rise <= 3; rise++ {
 			for fall := 1; fall <= 3; fall++ {
 				for bits := 0; bits < 1<<uint(*all); bits++ {
-					seq := make([]bool, *all)
+					seq := make([]HealthStep, *all)
 					for i := range seq {
-						seq[i] = bits&(1<<uint(i)) != 0
+						seq[i] = HealthStep{Op: "result", OK: bits&(1<<uint(i)) != 0}
 					}
-					r, err := runHealth(id, rise, fall, seq, nil)
+					r, err := runHealth(id, rise, fall, seq, false)
 					if err != nil {
 						return err
 					}
